@@ -8,7 +8,8 @@
    its writer wrote and that solving from the file equals solving directly is decided on the
    implementation by the round-trip and history oracles of the check. *)
 From Coq Require Import ZArith QArith Qabs NArith Arith List String Ascii Bool.
-From Inkfem Require Import Model.Types Model.Regex Gen.GenRegex Model.Read Model.ReadPre Proofs.ReadPreProofs.
+From Inkfem Require Import Model.Types Model.Regex Gen.GenRegex Model.Read Model.ReadPre Proofs.ReadPreProofs
+  Model.Template Gen.GenTemplates Proofs.TemplateProofs.
 Import ListNotations.
 Local Open Scope string_scope.
 Local Close Scope Q_scope.
@@ -39,6 +40,15 @@ Theorem C12_checksum_accepts_exact_sums : forall (n : prnode),
   checksum_ok n = true.
 Proof. exact checksum_exact_sum. Qed.
 Print Assumptions C12_checksum_accepts_exact_sums.
+
+(* the writer: io/pre/preprocess.template.txt (regenerated parse tree, model of text/template tied to Go's
+   output by stage G) renders, for EVERY sliced structure, exactly the documented layout: version,
+   dof_count, includes_own_weight yes / no, |nodes| with constraint and equation numbers, |materials|,
+   |sections|, |bars| with ">> count" and the printed block of every slice node *)
+Theorem C12_preprocessed_file_is_the_documented_layout : forall d : pre_doc,
+  render tmpl_preprocess (pre_ctx d) = spec_preprocess d.
+Proof. exact preprocess_template_renders_the_documented_layout. Qed.
+Print Assumptions C12_preprocessed_file_is_the_documented_layout.
 
 (* a small preprocessed file, read inside Coq *)
 Example C12_reads_a_preprocessed_file :
